@@ -122,17 +122,17 @@ pub fn run(out: &mut Out, thorough: bool, seed: u64, extra: &[String]) {
                 let cs = coeffs(&mut r, &qs, n);
                 let p = rns_poly(&cs, &qs);
                 let conv = hu::VerifBaseConverter::new(&base, &ob);
-                out.case(&format!("fast_convert {} {} {} {}", fl(&qs), fl(&os), n, fl2(&p)), &format!("fc{}to{}", k, ko), || { let mut o = vec![0u64; ko * n]; conv.fast_convert_array(&flat(&p), &mut o); fl2(&unflat(&o, n)) });
+                out.case(&format!("fast_convert {} {} {} {}", fl(&qs), fl(&os), n, fl2(&p)), &format!("fc{}to{}", k, ko), || { let mut o = vec![0xDEAD_BEEF_0BAD_F00Du64; ko * n]; conv.fast_convert_array(&flat(&p), &mut o); fl2(&unflat(&o, n)) });
                 let p1 = os[0];
                 if let Ok(ob1) = hu::RNSBase::new(&[Modulus::new(p1)]) {
                     let conv1 = hu::VerifBaseConverter::new(&base, &ob1);
-                    out.case(&format!("exact_convey {} {} {} {}", fl(&qs), p1, n, fl2(&p)), &format!("ec{}", k), || { let mut o = vec![0u64; n]; conv1.exact_convey_array(&flat(&p), &mut o); fl(&o) });
+                    out.case(&format!("exact_convey {} {} {} {}", fl(&qs), p1, n, fl2(&p)), &format!("ec{}", k), || { let mut o = vec![0xDEAD_BEEF_0BAD_F00Du64; n]; conv1.exact_convey_array(&flat(&p), &mut o); fl(&o) });
                 }
             }
         }
     }
     // ---- RNSTool: NTT-friendly prime chains of 1..6 primes, mixed sizes and orders
-    for ti in 0..reps + 6 {
+    for ti in 0..reps + 10 {
         let lg = r.range(1, if thorough { 7 } else { 5 }) as usize; let n = 1usize << lg;
         // the first six tools are directed at the sizing rule of the auxiliary base B (|B| = |q| + 1 when 32 + bits(t) + bits(Q) >= 61(|q| + 1)):
         // 60-bit coefficient primes with a wide plain modulus, on both sides of the boundary
@@ -141,12 +141,23 @@ pub fn run(out: &mut Out, thorough: bool, seed: u64, extra: &[String]) {
         let minb = lg + 2;
         let mut bits: Vec<usize> = if directed { vec![60; k] } else { (0..k).map(|_| *r.pick(&[minb.max(8), 20, 30, 40, 50, 59, 60])).map(|b| b.max(minb)).collect() };
         match r.below(3) { 0 => bits.sort(), 1 => { bits.sort(); bits.reverse(); } _ => {} }
-        let qs = ntt_primes(&mut r, n, &bits);
+        let mut qs = ntt_primes(&mut r, n, &bits);
         if qs.len() != k { continue; }
+        // tools 6..9: ADJACENT-WIDTH primes — the last (dropped) prime is one bit wider than the others and at least twice as large
+        // (bottom-of-range b-bit primes, top-of-range (b+1)-bit last prime: ratio between 2 and 4): single conditional subtractions
+        // that are only valid for q_last < 2 q_i fail here, full reductions do not
+        let adjacent = ti >= 6 && ti < 10;
+        if adjacent {
+            let b = [29usize, 39, 49, 59][ti as usize - 6].max(lg + 3);
+            let lows = ntt_primes_low(n, &[b, b]);
+            let top = std::panic::catch_unwind(|| hu::get_primes(2 * n as u64, b + 1, 1)[0].value()).ok();
+            if let (2, Some(tp)) = (lows.len(), top) { if tp >= 2 * lows[0] { qs = vec![lows[0], lows[1], tp]; } }
+        }
+        let k = qs.len();
         let t = if directed { let tb = if ti < 3 { 28 + k } else { *r.pick(&[31usize, 40, 50, 59]) + k.min(1) - 1 }; match std::panic::catch_unwind(|| hu::get_primes(2 * n as u64, tb.min(60), 1)[0].value()) { Ok(t) => t, Err(_) => continue } } else { match r.below(4) { 0 => 1u64 << r.range(1, 20), 1 => { let tb = (lg + 3).max(r.range(4, 40) as usize); match (tb..=tb + 4).find_map(|b| std::panic::catch_unwind(|| hu::get_primes(2 * n as u64, b, 1)[0].value()).ok()) { Some(t) => t, None => continue } } 2 => 3, _ => r.range(2, 1 << 20) | 1 } };
         // every third chain ends in a prime that is 1 modulo t (t >= 3): q_last^-1 mod t = 1, the guarded fast paths of the BGV division are taken
         let mut qs = qs;
-        if !directed && t >= 3 && r.chance(1, 3) { if let Some(p) = crate::ctx::prime_one_mod(n, t, 50, &qs) { let k1 = qs.len() - 1; qs[k1] = p; } }
+        if !directed && !adjacent && t >= 3 && r.chance(1, 3) { if let Some(p) = crate::ctx::prime_one_mod(n, t, 50, &qs) { let k1 = qs.len() - 1; qs[k1] = p; } }
         if qs.iter().any(|&q| gcd(q, t) != 1) { continue; }
         let ms: Vec<Modulus> = qs.iter().map(|&q| Modulus::new(q)).collect();
         let base = hu::RNSBase::new(&ms).unwrap();
@@ -178,25 +189,25 @@ pub fn run(out: &mut Out, thorough: bool, seed: u64, extra: &[String]) {
                 out.case(&format!("div_round_last_ntt {} {}", head, fl2(&pn)), &cls, || { let mut v = pnf.clone(); tool.divide_and_round_q_last_ntt_inplace(&mut v, &tables); fl2(&unflat(&v, n)[..k - 1]) });
                 out.case(&format!("mod_t_div_last_ntt {} {}", head, fl2(&pn)), &cls, || { let mut v = pnf.clone(); tool.mod_t_and_divide_q_last_ntt_inplace(&mut v, &tables); fl2(&unflat(&v, n)[..k - 1]) });
             }
-            out.case(&format!("fastbconv_m_tilde {} {}", head, fl2(&p)), &cls, || { let mut o = vec![0u64; (bsk.len() + 1) * n]; tool.fastbconv_m_tilde(&pf, &mut o); fl2(&unflat(&o, n)) });
-            out.case(&format!("scale_and_round {} {}", head, fl2(&p)), &cls, || { let mut o = vec![0u64; n]; tool.decrypt_scale_and_round(&pf, &mut o); fl(&o) });
-            out.case(&format!("decrypt_mod_t {} {}", head, fl2(&p)), &cls, || { let mut o = vec![0u64; n]; tool.decrypt_mod_t(&pf, &mut o); fl(&o) });
+            out.case(&format!("fastbconv_m_tilde {} {}", head, fl2(&p)), &cls, || { let mut o = vec![0xDEAD_BEEF_0BAD_F00Du64; (bsk.len() + 1) * n]; tool.fastbconv_m_tilde(&pf, &mut o); fl2(&unflat(&o, n)) });
+            out.case(&format!("scale_and_round {} {}", head, fl2(&p)), &cls, || { let mut o = vec![0xDEAD_BEEF_0BAD_F00Du64; n]; tool.decrypt_scale_and_round(&pf, &mut o); fl(&o) });
+            out.case(&format!("decrypt_mod_t {} {}", head, fl2(&p)), &cls, || { let mut o = vec![0xDEAD_BEEF_0BAD_F00Du64; n]; tool.decrypt_mod_t(&pf, &mut o); fl(&o) });
             // inputs in Bsk ∪ {m_tilde}, q ∪ Bsk, Bsk: residues of integers below the respective products
             let mut all: Vec<u64> = bsk.clone(); all.push(mt);
             let ys = coeffs(&mut r, &all, n);
             let py = rns_poly(&ys, &all);
-            out.case(&format!("sm_mrq {} {}", head, fl2(&py)), &cls, || { let mut o = vec![0u64; bsk.len() * n]; tool.sm_mrq(&flat(&py), &mut o); fl2(&unflat(&o, n)) });
+            out.case(&format!("sm_mrq {} {}", head, fl2(&py)), &cls, || { let mut o = vec![0xDEAD_BEEF_0BAD_F00Du64; bsk.len() * n]; tool.sm_mrq(&flat(&py), &mut o); fl2(&unflat(&o, n)) });
             let mut qb: Vec<u64> = qs.clone(); qb.extend(bsk.iter());
             let zs = coeffs(&mut r, &qb, n);
             let pz = rns_poly(&zs, &qb);
-            out.case(&format!("fast_floor {} {}", head, fl2(&pz)), &cls, || { let mut o = vec![0u64; bsk.len() * n]; tool.fast_floor(&flat(&pz), &mut o); fl2(&unflat(&o, n)) });
+            out.case(&format!("fast_floor {} {}", head, fl2(&pz)), &cls, || { let mut o = vec![0xDEAD_BEEF_0BAD_F00Du64; bsk.len() * n]; tool.fast_floor(&flat(&pz), &mut o); fl2(&unflat(&o, n)) });
             // Shenoy–Kumaresan: centred values well inside and at the edge of the admissible range
             let pb = Big::product(&bsk);
             let small = Big::product(&qs).mul_u64(1 << 20);
             let ws: Vec<Big> = (0..n).map(|_| { let m = if small.ge(&pb) { Big::random_below(&mut r, &pb) } else { Big::random_below(&mut r, &small) };
                 if r.chance(1, 2) || m.is_zero() { m } else { pb.sub(&m) } }).collect();   // negative values as P - m
             let pw = rns_poly(&ws, &bsk);
-            out.case(&format!("fastbconv_sk {} {}", head, fl2(&pw)), &cls, || { let mut o = vec![0u64; k * n]; tool.fastbconv_sk(&flat(&pw), &mut o); fl2(&unflat(&o, n)) });
+            out.case(&format!("fastbconv_sk {} {}", head, fl2(&pw)), &cls, || { let mut o = vec![0xDEAD_BEEF_0BAD_F00Du64; k * n]; tool.fastbconv_sk(&flat(&pw), &mut o); fl2(&unflat(&o, n)) });
         }
     }
 }
